@@ -612,12 +612,33 @@ func validateAlternateStop(idx int, stop schema.AlternateStop) error {
 	return nil
 }
 
+// validateNonNegativeMatrix makes sure a matrix of time dependent durations has
+// no negative value: a trip can not end before it starts.
+func validateNonNegativeMatrix(matrix [][]float64, name string) error {
+	for i, row := range matrix {
+		for j, value := range row {
+			if value < 0 {
+				return nmerror.NewInputDataError(fmt.Errorf(
+					"%s has a negative value %v at row %d, column %d",
+					name, value, i, j))
+			}
+		}
+	}
+	return nil
+}
+
 func validateTimeDependentMatrix(
 	input schema.Input,
 	durationMatrices schema.TimeDependentMatrix,
 	modelOptions Options,
 	isSingleMatrix bool,
 ) error {
+	if err := validateNonNegativeMatrix(
+		durationMatrices.DefaultMatrix,
+		"time_dependent_duration",
+	); err != nil {
+		return err
+	}
 	if modelOptions.Validate.Enable.Matrix {
 		if err := validateMatrix(
 			input,
@@ -642,6 +663,13 @@ func validateTimeDependentMatrix(
 		if tf.Matrix != nil && tf.ScalingFactor != nil {
 			return nmerror.NewInputDataError(fmt.Errorf(
 				"duration for time frame %d has both matrix and scaling factor, only one is allowed", i))
+		}
+
+		if err := validateNonNegativeMatrix(
+			tf.Matrix,
+			fmt.Sprintf("time_dependent_duration for time frame %d", i),
+		); err != nil {
+			return err
 		}
 
 		if tf.Matrix != nil && modelOptions.Validate.Enable.Matrix {
